@@ -247,6 +247,8 @@ class Server:
     def restart(self):
         if not self._restart:
             self._restart = True
+            if self.discovery:
+                self.discovery.shutdown()
             for iface in self.interfaces.values():
                 iface.shutdown()
 
